@@ -18,6 +18,7 @@
   selected auth types (`AuthLocal p`, C09 — a theorem for `realParams`, see `authLocal_real`).
 -/
 import RumaModel.Lemmas.StateResWitness
+import RumaModel.Lemmas.StateResHyp
 namespace Ruma.Props.C07
 open Ruma Ruma.StateRes Ruma.Spec.StateResV2
 
@@ -301,6 +302,23 @@ example :
   revert P
   decide +kernel
 
+/-- **hypothesis_checkers_sound.** The executable checkers that the C07 driver evaluates on every
+generated room (`c07.hyp`, compared with the harness' own evaluation) are sound: `roomOkB` answering
+`some c0` implies `RoomOk … c0`, and `f4FreeB = true` implies `F4Free`. So "wf+f4free" in the
+evidence's input distribution counts rooms that lie inside the hypotheses of
+`resolve_refines_spec_real` and `resolve_refines_spec_noF4`, and the comparison with the true spec
+is suppressed (known finding F4) only where `F4Free` fails. -/
+theorem hypothesis_checkers_sound {p : Params} {store : List Event} {sets : List StateMap}
+    {chains : List (List Id)} :
+    (∀ c0, roomOkB store sets chains = some c0 → RoomOk store sets chains c0) ∧
+    (f4FreeB p store sets chains = true → F4Free p store sets chains) :=
+  ⟨fun _ h => roomOkB_sound h, f4FreeB_sound⟩
+
+/-- The checkers accept the F4 witness room as `RoomOk` and reject it as `F4Free`. -/
+example : (roomOkB F4Witness.store F4Witness.sets F4Witness.chains).isSome = true ∧
+    f4FreeB F4Witness.params F4Witness.store F4Witness.sets F4Witness.chains = false := by
+  constructor <;> decide +kernel
+
 /-- **f4_deviation_observable.** On the F4 witness room (room version 6 rules; `corpus/C07`, replayed
 against the real `resolve` on every run) the model of `resolve` — under every iteration order —
 resolves the topic to `$t1`, as does the deviation-carrying spec, while the specification resolves
@@ -346,5 +364,6 @@ end Ruma.Props.C07
 #print axioms Ruma.Props.C07.resolve_no_panic
 #print axioms Ruma.Props.C07.resolve_refines_spec_real
 #print axioms Ruma.Props.C07.resolve_refines_spec_noF4
+#print axioms Ruma.Props.C07.hypothesis_checkers_sound
 #print axioms Ruma.Props.C07.f4_deviation_observable
 #print axioms Ruma.Props.C07.resolveRefinesSpecStatement_refuted
